@@ -55,6 +55,21 @@ func H_C19_parse(n1, n2 int) {
 
 func firstOf(b []*RootBlock, _ ReferenceMap) []*RootBlock { return b }
 
+// H_C19_parse_refs(_, _): two documents with reference definitions and uses (label
+// letters free): parsing one between two parses of the other changes nothing, and no
+// Parse call writes to package-level state (label normalisation in particular).
+func H_C19_parse_refs(_, _ int) {
+	in1 := tmplBytes("[" + hL + "b]: /c\n\n[" + hL + "B] [x][" + hL + "b]")
+	in2 := tmplBytes("[" + hL + "]: /d 't'\n\n![" + hL + "][]")
+	vfreeze()
+	a := dumpBlocks(firstOf(Parse(cloneBytes(in2))))
+	Parse(cloneBytes(in1))
+	b := dumpBlocks(firstOf(Parse(cloneBytes(in2))))
+	vunfreeze()
+	check(vsame(a, b), "C19.parse-independent")
+	vdigest(a)
+}
+
 // H_C19_reentrant(d, _): overlapping use of one tree without goroutines. After a walk
 // that was cut short (Post returned false), walk A runs over document d; at a
 // solver-chosen callback of A a complete walk B and a complete render of the same
